@@ -449,3 +449,29 @@ func isNilConst(v ssa.Value) bool {
 	c, ok := v.(*ssa.Const)
 	return ok && c.Value == nil
 }
+
+// sameValue: a and b denote the same value: identical after origin(), or
+// loads of the same field of the same base, or the same field of the same
+// struct value.
+func sameValue(a, b ssa.Value) bool {
+	a, b = origin(a), origin(b)
+	if a == b {
+		return true
+	}
+	if ba, fa, ok := fieldOf(a); ok {
+		if bb, fb, ok := fieldOf(b); ok && fa == fb && sameValue(ba, bb) {
+			return true
+		}
+	}
+	if fa, ok := a.(*ssa.Field); ok {
+		if fb, ok := b.(*ssa.Field); ok && fa.Field == fb.Field && sameValue(fa.X, fb.X) {
+			return true
+		}
+	}
+	if ca, ok := a.(*ssa.Convert); ok {
+		if cb, ok := b.(*ssa.Convert); ok && types.Identical(ca.Type(), cb.Type()) && sameValue(ca.X, cb.X) {
+			return true
+		}
+	}
+	return false
+}
